@@ -60,6 +60,8 @@ type respClient struct {
 	// SendAfter > 0: when the drain is over the client sends one more message of about that many bytes (what
 	// the response left behind - packet size, queue state - is used by the next request).
 	SendAfter int
+	// MaxErrs: the drain gives up after this many errors in a row (default 4).
+	MaxErrs int
 }
 
 type respResult struct {
@@ -272,12 +274,16 @@ func runResp(cfg simrt.Config, d respDelivery, c respClient) *respResult {
 		// drain until the consumer's context expires; a connection that keeps producing errors
 		// (a dead transport does) is abandoned after a few of them in a row
 		consecutiveErrs := 0
+		maxErrs := c.MaxErrs
+		if maxErrs == 0 {
+			maxErrs = 4
+		}
 		for n := 0; n < 2000; n++ {
 			pkg, err := ch.NextPackage(ctx, true)
 			if err != nil {
 				res.Recs = append(res.Recs, recErr(err))
 				consecutiveErrs++
-				if simrt.IsSimCtxErr(err) || consecutiveErrs >= 4 {
+				if simrt.IsSimCtxErr(err) || consecutiveErrs >= maxErrs {
 					break
 				}
 				continue
